@@ -2,11 +2,15 @@
 The statement — normal ordering is correct for every polynomial — needs a proof about a recursive sort and is NOT decided.
 Decided: swap <=> sign flip, contraction before the swap with the unflipped coefficient, accumulate => zero check,
 sibling agreement of += / -=, monomial action, derived operations, shortcut vs polynomial form, whole-monomial equality."""
+import sympy as sp
 from pv.check import run_check
 from pv.entail import entails
 from pv.expr import Ctx, guard_facts, key_contains, key_subst
 from pv.facts import AnalysisBroken, strip_targs
 from pv.loops import covers, enclosing_loops, loop_shape, stmts_of, no_early_exit
+from pv.formula import Formula
+from pv.cfg import acyclic_paths
+from pv.paths import nodes_on_path, return_cases
 from pv.symenv import env_at, value_key
 from checks.lehmann import fld, THIS
 
@@ -396,33 +400,79 @@ def body(chk, db, cfgname):
             unknowns.append("the value written into the mode is not recognised as a function of the factor's type")
         elif wv != [True, False]:
             probs.append("the mode is not set to 'occupied iff the factor is a creation operator'")
-        # Pauli test: the error state is returned exactly when (creation on an occupied mode) or (annihilation on an empty one)
-        rets_err = [j for j, n in f.walk(f.body) if n["k"] == "return" and key_contains(ctx.key(n["sub"]), lambda y: y == ("global", "Pomerol::ERROR_FOCK_STATE"))]
+        # Pauli test, decided path by path through one application of a factor: for each of the four cases (factor creates /
+        # annihilates) x (mode occupied / empty) every path whose branch conditions are compatible with the case must end in
+        # the error return for (creation, occupied) and (annihilation, empty), and must perform the bit write for the other two.
+        # Any way of writing the test (one condition, nested ifs, early returns per operator type, ?:) gives the same table.
         pauli = None
-        for j in rets_err:
-            par = None
-            for a_ in f.ancestors(j):
-                if f.nodes[a_]["k"] == "if":
-                    par = a_
-                    break
-            if par is None or not f.cfg.dominates(f.cfg.pos1(f.nodes[par]["c"]), f.cfg.pos1(Wt)):
-                continue
-            ck = ctx.key(f.nodes[par]["c"])
-            table = [tt(ck, c_, o_) for c_ in (True, False) for o_ in (True, False)]
-            table = [x[1] if isinstance(x, tuple) and x[0] == "type" else x for x in table]
-            if None in table or any(isinstance(x, tuple) for x in table):
+        if n_ is not None:
+            hdr_, lblocks_ = f.cfg.loop_blocks(Ls[-1])
+            wpos = f.cfg.pos1(Wt)
+            starts_ = [s_ for s_ in f.cfg.blocks[hdr_].succs if s_ is not None and s_ in lblocks_ and s_ != hdr_] if hdr_ is not None else []
+            plist_ = []
+            for st_ in starts_:
+                plist_ += acyclic_paths(f.cfg, st_, {hdr_, f.cfg.exit})
+                if st_ in (hdr_, f.cfg.exit):
+                    plist_ = []
+            err_nodes = {j for j, n in f.walk(f.body) if n["k"] == "return" and key_contains(ctx.key(n["sub"]), lambda y: y == ("global", "Pomerol::ERROR_FOCK_STATE"))}
+            if not plist_ or wpos is None or len(plist_) > 400:
                 pauli = "unknown"
-            elif table == [True, False, False, True]:
-                pauli = "ok"
             else:
-                pauli = "bad"
-                break
-        if pauli is None:
-            probs.append("no Pauli test (creation on an occupied mode or annihilation on an empty one returns the error state) precedes the bit write")
-        elif pauli == "bad":
-            probs.append("the Pauli test that precedes the bit write does not reject exactly (creation on an occupied mode) and (annihilation on an empty mode)")
-        elif pauli == "unknown":
-            unknowns.append("the condition of the Pauli test is not recognised")
+                verdicts = set()
+                for pth in plist_:
+                    onp = nodes_on_path(f, pth)
+                    kind = "error" if any(j in err_nodes for j in onp) else ("write" if (wpos[0] in pth and pth[-1] == hdr_) else ("other-return" if pth[-1] == f.cfg.exit else "skip"))
+                    widx = pth.index(wpos[0]) if wpos[0] in pth else None
+                    # facts of the edges taken, with the index of the block they were decided in
+                    efacts = []
+                    for bi, (b_, nx_) in enumerate(zip(pth, pth[1:])):
+                        for k_, s_ in enumerate(f.cfg.blocks[b_].succs):
+                            if s_ == nx_:
+                                lbl = f.cfg.edge_label(b_, k_)
+                                if lbl is not None:
+                                    for fa_ in ctx.cmp_fact(lbl[0], lbl[1]) or []:
+                                        efacts.append((bi, fa_, ctx.cmp_fact(lbl[0], lbl[1], inline=False)))
+                                break
+                    for is_cre in (True, False):
+                        for occ in (True, False):
+                            compatible = True
+                            for bi, fa_, raw_ in efacts:
+                                if fa_[0] in ("true", "false"):
+                                    v_ = tt(fa_[1], is_cre, occ)
+                                    want = fa_[0] == "true"
+                                else:
+                                    v_ = tt(("op", "==" if fa_[0] == "==" else fa_[0], fa_[1], fa_[2]), is_cre, occ) if fa_[0] in ("==", "!=") else None
+                                    want = True
+                                v_ = v_[1] if isinstance(v_, tuple) and v_[0] == "type" else v_
+                                mentions = key_contains(("x",) + tuple(fa_[1:]), lambda y: (y[0] == "op" and y[1] == "[]" and len(y) == 4 and y[2][:2] == bra[:2]) or comp_of(y) == 0)
+                                if v_ is None or isinstance(v_, tuple):
+                                    if mentions:
+                                        verdicts.add(("unknown", "a branch condition on the factor type / the occupation is not understood: %s" % (fa_,)))
+                                    continue
+                                if widx is not None and bi >= widx and key_contains(("x",) + tuple(x for r_ in raw_ for x in r_[1:]), lambda y: y[0] == "op" and y[1] == "[]" and len(y) == 4 and y[2][:2] == bra[:2]):
+                                    verdicts.add(("bad", "the occupation of the mode is tested after the bit was written (it then no longer tells whether the operator may act)"))
+                                if v_ != want:
+                                    compatible = False
+                                    break
+                            if not compatible:
+                                continue
+                            must_err = (is_cre and occ) or (not is_cre and not occ)
+                            case_ = "%s on an %s mode" % ("creation" if is_cre else "annihilation", "occupied" if occ else "empty")
+                            if must_err and kind != "error":
+                                verdicts.add(("bad", "%s is not rejected (a path compatible with it %s)" % (case_, "writes the bit" if kind == "write" else "skips the factor")))
+                            if not must_err and kind != "write":
+                                verdicts.add(("bad", "%s does not reach the bit write (%s)" % (case_, "the error state is returned" if kind == "error" else "the factor is skipped")))
+                bads_ = sorted(x[1] for x in verdicts if x[0] == "bad")
+                unks_ = sorted(x[1] for x in verdicts if x[0] == "unknown")
+                if bads_:
+                    pauli = "bad"
+                    probs.append("the Pauli test is wrong: " + "; ".join(bads_[:3]))
+                elif unks_:
+                    pauli = "unknown"
+                else:
+                    pauli = "ok"
+        if pauli == "unknown":
+            unknowns.append("the Pauli test could not be evaluated path by path")
         # sign: loop j in [0, ind) flipping when bra[j]
         sgn_ok = False
         for j, n in f.walk(f.body):
@@ -447,6 +497,40 @@ def body(chk, db, cfgname):
             unknowns.append("the Jordan-Wigner sign is not accumulated by a loop over the modes below the index (form not analysed)")
         elif not sgn_ok:
             probs.append("the sign is not (-1)^(number of occupied modes j with 0 <= j < ind), evaluated before the bit is written")
+        # the accumulated sign is what the function returns (after the loop over the factors): the flipped variable itself,
+        # or -- when the parity is kept as a bool -- `parity ? -1 : 1`
+        flipvars = set()
+        for x, m_ in f.walk(f.body):
+            if is_sign_flip(ctx, m_):
+                lk_ = ctx.key(m_["l"], inline=False)
+                if lk_[0] == "var":
+                    flipvars.add(lk_[:2])
+        if flipvars and n_ is not None:
+            after = [j for j, n in f.walk(f.body) if n["k"] == "return" and n.get("sub") is not None and j not in [x for x, _ in f.walk(Ls[-1])] and stmt_before(f, Ls[-1], j)]
+            for j in after:
+                rk_ = ctx.key(f.nodes[j]["sub"])
+                comps = [x for x in rk_[2:]] if rk_[0] == "call" and "make_tuple" in rk_[1] else None
+                if comps is None or len(comps) != 2:
+                    unknowns.append("the value returned after the factors were applied is not make_tuple(state, sign)")
+                    continue
+                sk = strip_conv(unctor(comps[1]))
+                sk = strip_conv(sk)
+                okret = False
+                badret = None
+                if sk[0] == "var" and sk[:2] in flipvars and "bool" not in (ctx.decls.get(sk[1], {}).get("t") or ""):
+                    okret = True
+                elif sk[0] == "cond" and strip_conv(sk[1])[0] == "var" and strip_conv(sk[1])[:2] in flipvars:
+                    neg1 = (("lit", -1), ("un", "-", ("lit", 1)), ("lit", -1.0))
+                    if strip_conv(sk[2]) in neg1 and strip_conv(sk[3]) in (("lit", 1), ("lit", 1.0)):
+                        okret = True
+                    elif strip_conv(sk[3]) in neg1 and strip_conv(sk[2]) in (("lit", 1), ("lit", 1.0)):
+                        badret = "the parity flag is converted with the wrong orientation (odd parity gives +1)"
+                elif not key_contains(sk, lambda y: y[0] == "var" and y[:2] in flipvars):
+                    badret = "the sign accumulated over the occupied modes is not part of the returned matrix element"
+                if badret:
+                    probs.append(badret)
+                elif not okret:
+                    unknowns.append("the way the accumulated sign enters the returned matrix element is not recognised")
         if probs:
             r3.bad(OP + "::actRight(monomial,ket)", f.loc(), "; ".join(probs), cfgname)
         elif unknowns:
@@ -502,6 +586,8 @@ def body(chk, db, cfgname):
             good = False
             for oc in occupied_counts(ng, gctx, ket):
                 shp = oc["loop"]
+                if oc["sign"] != 1:
+                    continue
                 if shp["kind"] == "index" and shp["start"] == ("lit", 0) and oc["elem"][:2] == shp["var"][:2] and not [e for e in shp["exits"] if e[1] != "stop-condition"] and \
                         key_contains(("x", shp["bound"]) + tuple(shp.get("extra", [])), lambda y: y == nmodes):
                     b_ = shp["bound"]
@@ -535,24 +621,45 @@ def body(chk, db, cfgname):
         rets = [j for j, n in sg.walk(sg.body) if n["k"] == "return"]
         rk = gctx.key(sg.nodes[rets[0]]["sub"], inline=False)
         counts = {}
+        accexpr = {}
+        U_, D_ = sp.Symbol("n_up"), sp.Symbol("n_down")
         for oc in occupied_counts(sg, gctx, ket):
             shp = oc["loop"]
             for cont in (up, dn):
+                hit = False
                 if covers(shp, cont) and (oc["elem"] in [x for x in __import__("pv.loops", fromlist=["element_keys"]).element_keys(shp, cont)] or
                                            (oc["elem"][0] in ("un", "op") and oc["elem"][1] == "*" and oc["elem"][2][:2] == shp["var"][:2])):
-                    counts[cont] = oc["acc"]
+                    hit = True
                 elif shp["kind"] == "other" and shp.get("var") is None:
                     # iterator declared before the loop and only advanced in the for-header:  for (; it != V.end(); it++)
                     lp = sg.nodes[shp["node"]]
                     cnd = gctx.cmp_fact(lp["c"], True) if lp.get("c") is not None else []
                     if any(x[0] == "!=" and key_contains(x, lambda y: y[0] == "mcall" and y[1].split("::")[-1] == "end" and y[2] == cont) for x in cnd):
-                        counts[cont] = oc["acc"]
+                        hit = True
+                if hit and no_early_exit(shp):
+                    counts[cont] = oc["acc"]
+                    accexpr.setdefault(oc["acc"], []).append((oc["node"], oc["sign"] * (U_ if cont == up else D_)))
         site = PRE + "Sz:shortcut-vs-polynomial"
         good = False
-        if up in counts and dn in counts and rk[0] == "op" and rk[1] == "*":
-            fac = [x for x in rk[2:] if x[0] == "lit"]
-            diff = [x for x in rk[2:] if x[0] == "op" and x[1] == "-"]
-            good = bool(fac) and fac[0][1] == 0.5 and bool(diff) and strip_conv(diff[0][2])[:2] == counts[up][:2] and strip_conv(diff[0][3])[:2] == counts[dn][:2]
+        if up in counts and dn in counts:
+            # every accumulator starts at 0 and is changed by the recognised counts only; the returned expression, with each
+            # accumulator replaced by the signed counts it collects, must be (n_up - n_down)/2
+            F5 = Formula()
+            subs_ = {}
+            clean = True
+            for acc, lst in accexpr.items():
+                dv = gctx.decls.get(acc[1]) if acc[0] == "var" else None
+                ini = strip_conv(gctx.key(dv["init"])) if dv and dv.get("init") is not None else None
+                others = [m for m in gctx.mut.get(acc[1], []) if m not in [x[0] for x in lst] and m != (dv or {}).get("declnode")] if dv else [1]
+                if ini not in (("lit", 0), ("lit", 0.0)) or others:
+                    clean = False
+                subs_[F5.atom(acc)] = sum(x[1] for x in lst)
+            if clean:
+                try:
+                    got = F5.conv(rk).subs(subs_)
+                    good = F5.equal(got, (U_ - D_) / 2)
+                except AnalysisBroken:
+                    good = False
         if poly_ok and good:
             r5.ok(site, sg.loc(), "0.5*(#occupied up - #occupied down) over the same index lists as +0.5 n(up_i) - 0.5 n(down_i)", cfgname)
         elif not poly_ok:
@@ -570,16 +677,28 @@ def body(chk, db, cfgname):
         with r5.guard(PRE + cls + "::getMatrixElement(bra,ket)", g.loc(), cfgname):
             gctx = Ctx(g, db)
             bra, ket = pk(g, 0), pk(g, 1)
-            rets = [j for j, n in g.walk(g.body) if n["k"] == "return"]
-            k = gctx.key(g.nodes[rets[0]]["sub"])
             site = PRE + cls + "::getMatrixElement(bra,ket)"
             diag = ("mcall", PRE + cls + "::getMatrixElement", THIS, ket)
-            good = k[0] == "cond" and ((k[1] in (("op", "!=", bra, ket), ("op", "!=", ket, bra)) and k[2] == ("lit", 0) and unctor(k[3]) == diag) or
-                                       (k[1] in (("op", "==", bra, ket), ("op", "==", ket, bra)) and unctor(k[2]) == diag and k[3] == ("lit", 0)))
-            if good:
-                r5.ok(site, g.loc(), "0 off the diagonal, the diagonal shortcut on it", cfgname)
+            eq_ = ("==",) + tuple(sorted([bra, ket], key=repr))
+            ne_ = ("!=",) + tuple(sorted([bra, ket], key=repr))
+            cases = return_cases(g, gctx)
+            if not cases:
+                raise AnalysisBroken(cls + "::getMatrixElement(bra,ket): the returning paths cannot be enumerated")
+            wrong = []
+            for c_ in cases:
+                v_ = strip_conv(unctor(c_["key"]))
+                if eq_ in c_["facts"]:
+                    if unctor(v_) != diag:
+                        wrong.append("for bra == ket it does not return the diagonal shortcut getMatrixElement(ket)")
+                elif ne_ in c_["facts"]:
+                    if v_ not in (("lit", 0), ("lit", 0.0)):
+                        wrong.append("for bra != ket it does not return 0")
+                else:
+                    raise AnalysisBroken(cls + "::getMatrixElement(bra,ket): a returning path does not decide bra == ket")
+            if not wrong:
+                r5.ok(site, g.loc(), "0 off the diagonal, the diagonal shortcut on it (%d cases)" % len(cases), cfgname)
             else:
-                r5.bad(site, g.loc(), "off-diagonal matrix elements of a diagonal operator are not 0 / the diagonal does not use the shortcut of the same state", cfgname)
+                r5.bad(site, g.loc(), "off-diagonal matrix elements of a diagonal operator are not 0 / the diagonal does not use the shortcut of the same state: " + "; ".join(sorted(set(wrong))), cfgname)
 
     # ================================================================== R6
     r6 = chk.rule("C05-R6", "equality of polynomials compares whole monomials (sizes and all factors) and coefficients", "F8 guards", 2)
@@ -661,7 +780,9 @@ def occupied_counts(g, gctx, ket):
     at_ = None
     for j, n in g.walk(g.body):
         acc = e = None
-        if n["k"] == "bin" and n["op"] == "+=":
+        sign = 1
+        if n["k"] == "bin" and n["op"] in ("+=", "-="):
+            sign = 1 if n["op"] == "+=" else -1
             rk = gctx.key(n["r"], inline=False)
             while rk[0] == "cast":
                 rk = rk[2]
@@ -669,7 +790,8 @@ def occupied_counts(g, gctx, ket):
                 acc, e = gctx.key(n["l"], inline=False), rk[3]
             elif rk[0] == "op" and rk[1] == "[]" and rk[2] == ket:
                 acc, e = gctx.key(n["l"], inline=False), rk[3]
-        elif n["k"] == "un" and n["op"] == "++":
+        elif n["k"] == "un" and n["op"] in ("++", "--"):
+            sign = 1 if n["op"] == "++" else -1
             at_ = at_ or guard_facts(g, gctx)
             fa = at_.get(g.cfg.pos1(j), frozenset())
             for x in fa:
@@ -683,7 +805,7 @@ def occupied_counts(g, gctx, ket):
             continue
         Ls = [L for L in enclosing_loops(g, j) if g.nodes[L]["k"] in ("for", "forrange")]
         if Ls:
-            out.append({"acc": acc, "loop": loop_shape(g, gctx, Ls[0]), "elem": e, "node": j})
+            out.append({"acc": acc, "loop": loop_shape(g, gctx, Ls[0]), "elem": e, "node": j, "sign": sign})
     return out
 
 
@@ -705,6 +827,8 @@ def is_sign_flip(ctx, m_):
         r = ctx.key(m_["r"], inline=False)
         if r == ("un", "-", l):
             return True
+        if r == ("un", "!", l) or (r[0] == "cast" and len(r) == 3 and r[2] == ("un", "!", l)):
+            return True      # parity kept as a bool: negative = !negative
         if r[0] == "op" and r[1] == "*" and len(r) == 4 and ((r[2] == l and r[3] in neg1) or (r[3] == l and r[2] in neg1)):
             return True
     return False
